@@ -180,6 +180,9 @@ int main(int argc, char **argv)
                 for (k = 0; k < NSLOT; k++) { used[k] = 0; legacy[k] = 0; }
                 nlegacy = 0;
                 remove(path);
+                /* one file per history: a session that could not be closed must not disturb the next history */
+                snprintf(path, sizeof path, "%s.%ld.hdf", argv[1], a[0]);
+                remove(path);
                 fid = Hopen(path, DFACC_CREATE, 0);
                 grid = fid == FAIL ? FAIL : GRstart(fid);
                 printf("H %ld%s\n", a[0], grid == FAIL ? " fail" : "");
@@ -336,6 +339,7 @@ int main(int argc, char **argv)
                 int ok;
                 if (grid == FAIL) { printf("E fail\n"); break; }
                 ok = end_session();
+                if (!ok && getenv("DRIVE_GR_DEBUG")) HEprint(stderr, 0);
                 if (!start_session()) ok = 0;
                 printf("E %s\n", ok ? "ok" : "fail");
                 break;
